@@ -16040,6 +16040,14 @@ impl<
 		self.pending_events.lock().unwrap().iter().map(|(ev, _)| ev.clone()).collect()
 	}
 
+	/// Verification hook: for each pending event (same order as [`Self::verif_pending_events`]) a
+	/// rendering of the completion action attached to it, if any.
+	#[cfg(ldk_verif)]
+	pub fn verif_pending_event_actions(&self) -> Vec<Option<String>> {
+		let events = self.pending_events.lock().unwrap();
+		events.iter().map(|(_, action)| action.as_ref().map(|a| format!("{:?}", a))).collect()
+	}
+
 	#[cfg(any(test, feature = "_test_utils"))]
 	pub fn get_and_clear_pending_events(&self) -> Vec<events::Event> {
 		let events = core::cell::RefCell::new(Vec::new());
